@@ -321,7 +321,7 @@ def gen_consts(tier, seed, fams=None, muts=None, flags=None, stride=None, combo=
     if stride is None:
         stride = 11 if quick else 1
     if combo is None:
-        combo = 150 if quick else 1200
+        combo = 150 if quick else 1000
     return {"Fams": tla_set(fams, True), "MutKinds": tla_set(muts, True), "ComboN": combo, "Seed": seed % 1000,
             "Stride": stride, "Phase": seed % stride, "FlagSet": tla_set(flags),
             "MutLays": "{3}" if quick else "{3, 5}", "AsCoded": "FALSE"}
